@@ -25,14 +25,14 @@ static void prop(Tape &t, Ctx &c) {
     bool dt = is_dtls(ver);
     // TLS 1.3 resumption with 0-RTT: early-data records, EndOfEarlyData and the handshake flight are sealed under three different
     // keys whose sequence numbers are reset at different moments
-    bool early = kind == 2 && ver == TLS13 && t.chance(2, 3); int n_early = early ? 1 + (int) t.below(3) : 0;
+    bool early = kind == 2 && ver == TLS13 && t.chance(2, 3); int n_early = early ? 1 + (int) t.below(3) : 0; bool hrr = early && n_early == 2;   // (no extra draw: recorded tapes keep their meaning)
     // with client authentication the client's last flight (EndOfEarlyData, Certificate, CertificateVerify, Finished) can exceed the output
     // buffer and be encoded in two passes
     bool early_cauth = early && su.auth != AUTH_PSK && t.coin();
     int nact = 2 + (int) t.below(10); std::vector<int> acts; for (int i = 0; i < nact; i++) acts.push_back((int) t.below(A_N));
     uint32_t es = t.u16();
     std::string as; for (int a : acts) { as += act_name[a]; as += ","; }
-    std::string desc = fmt("%s %s kind=%d early-data-records=%d%s acts=[%s]", ver_name(ver), su.name, kind, n_early, early_cauth ? "+cauth" : "", as.c_str());
+    std::string desc = fmt("%s %s kind=%d early-data-records=%d%s%s acts=[%s]", ver_name(ver), su.name, kind, n_early, early_cauth ? "+cauth" : "", hrr ? "+hello-retry-request" : "", as.c_str());
     c.sample(desc); if (c.verbose) fprintf(stderr, "case: %s\n", desc.c_str());
     vfh_entropy_reset(300 + es); vfh_clock_set_ms(1000000); vfh_ledger_reset();
     std::vector<Bytes> draws; g_draws = &draws; g_entropy_seen = 0; vfh_entropy_tap = tap;
@@ -73,13 +73,26 @@ static void prop(Tape &t, Ctx &c) {
             grab(p.s, swire); if (p.s.dtls) { while (!p.s.dgram_out.empty()) { Bytes x = p.s.dgram_out.front(); p.s.dgram_out.pop_front(); if (drop_next) { drop_next = false; continue; } if (p.c.ssl) p.c.feed_dgram(x); mv = true; } } else if (!p.s.wire_out.empty()) { Bytes x = p.s.take_wire(); if (p.c.ssl && !p.c.failed) p.c.feed(x); mv = true; }
             if (!mv) break; } };
     auto mk = [&](Pair &p, sslSessionId_t *s) { Config cc, sc; cc.client = true; sc.client = false; cc.versions = sc.versions = { ver }; cc.suites = { su.id }; cc.auth = sc.auth = su.auth; cc.entropy_stream = 1; sc.entropy_stream = 2;
-        cc.client_auth = sc.client_auth = kind == 1 || early_cauth; sc.cert_cb = cb_strict; cc.sid = s; if (early) sc.max_early_data = 16384; return p.s.open(sc) >= 0 && p.c.open(cc) >= 0; };
+        cc.client_auth = sc.client_auth = kind == 1 || early_cauth; sc.cert_cb = cb_strict; cc.sid = s; if (early) sc.max_early_data = 16384;
+        // HelloRetryRequest: the client's only key share is for a group the server does not enable
+        if (hrr) { cc.tweak = [](sslSessOpts_t &o) { uint16_t g[2] = { 29, 23 }; matrixSslSessOptsSetKeyExGroups(&o, g, 2, 1); }; sc.tweak = [](sslSessOpts_t &o) { uint16_t g[1] = { 23 }; matrixSslSessOptsSetKeyExGroups(&o, g, 1, 0); }; }
+        return p.s.open(sc) >= 0 && p.c.open(cc) >= 0; };
     if (kind == 2) { if (matrixSslNewSessionId(&sid, NULL) < 0) throw Discard{}; Pair p0; if (!mk(p0, sid)) throw Discard{}; settle(p0); if (dt) for (int r = 0; r < 6 && !(p0.c.hs_complete() && p0.s.hs_complete()); r++) { p0.c.dtls_timeout(); p0.s.dtls_timeout(); settle(p0); } VF_CHECK(p0.c.hs_complete() && p0.s.hs_complete(), "harness-priming-handshake-failed", "priming session did not complete; %s", desc.c_str()); }
     Pair p; if (!mk(p, sid)) throw Discard{};
     if (early) { p.c.sel(); if (matrixSslGetMaxEarlyData(p.c.ssl) > 0) { for (int i = 0; i < n_early; i++) { Bytes m(20 + 31 * i, (uint8_t) (0x41 + i)); p.c.send(m, 1); } c.count("tls13-early-data-sent"); } else c.count("tls13-early-data-not-offered"); }
     // "0.5-RTT": a server that accepted early data may send application data right after its own Finished, before the client's
     // Finished has arrived; those records, the NewSessionTicket and later data all travel under the server application key
-    if (early && t.coin()) { grab(p.c, cwire); if (!p.c.wire_out.empty()) { Bytes x = p.c.take_wire(); p.s.feed(x); }
+    // early data offered, then a HelloRetryRequest: the application keeps writing "early" data after the retry request has been processed
+    // (refused or sealed - never under a key and nonce already used for the records that went with the first ClientHello)
+    if (early && hrr) { grab(p.c, cwire); if (!p.c.wire_out.empty()) { Bytes x = p.c.take_wire(); p.s.feed(x); }
+        // the HelloRetryRequest is the first record of the server's answer; whatever follows it (this server answers early data it
+        // cannot use with an alert) reaches the client after the application has tried to write
+        grab(p.s, swire); Bytes rest; if (!p.s.wire_out.empty()) { Bytes x = p.s.take_wire(); auto rs = parse_records(x, false); size_t cut = rs.empty() ? x.size() : rs[0].off + rs[0].hdr + rs[0].len;
+            Bytes first(x.begin(), x.begin() + cut); rest.assign(x.begin() + cut, x.end()); if (p.c.ssl && !p.c.failed) p.c.feed(first); }
+        int acc = 0; for (int i = 0; i < 2; i++) if (p.c.alive() && p.c.send(Bytes(20 + 31 * i, (uint8_t) (0x51 + i)), 1) >= 0) acc++;
+        if (!rest.empty() && p.c.ssl && !p.c.failed) p.c.feed(rest);
+        c.count(acc ? "tls13-early-data-written-after-hello-retry-request:accepted" : "tls13-early-data-written-after-hello-retry-request:refused"); }
+    if (early && !hrr && t.coin()) { grab(p.c, cwire); if (!p.c.wire_out.empty()) { Bytes x = p.c.take_wire(); p.s.feed(x); }
         int k = 1 + (int) t.below(2), okc = 0; for (int i = 0; i < k; i++) if (p.s.alive() && !p.s.hs_complete() && p.s.send(Bytes(30 + 7 * i, (uint8_t) (0x61 + i)), 0) >= 0) okc++;
         if (okc) c.count("tls13-half-rtt-server-data"); }
     settle(p);
